@@ -64,6 +64,21 @@ Proof.
     exists (n + 1)%Z. right. exists s0, q0. auto.
 Qed.
 
+(* a skipped physical sub-batch step: no noise draw, no accountant record, no inner step *)
+Theorem skipped_step_silent (s : ost T) q :
+  o_skipq s = true :: q -> o_events (sstate (v_step s)) = o_events s /\ o_hist (sstate (v_step s)) = o_hist s.
+Proof.
+  intros Q. rewrite step_eq. unfold ref_step, ref_pre_step.
+  assert (A : forall s1, o_skipq s1 = true :: q -> o_events s1 = o_events s -> o_hist s1 = o_hist s ->
+              o_events (sstate (sbind (ref_after_accumulate s1) (fun s0 go => if go then SOk (emit s0 (EInner (o_grad s0))) tt else SOk s0 tt))) = o_events s /\
+              o_hist (sstate (sbind (ref_after_accumulate s1) (fun s0 go => if go then SOk (emit s0 (EInner (o_grad s0))) tt else SOk s0 tt))) = o_hist s).
+  { intros s1 Q1 E1 H1. unfold ref_after_accumulate, ref_check_skip. rewrite Q1. cbn. auto. }
+  destruct (o_variant s).
+  4: { unfold ref_fgc_accumulate. destruct (o_grad s); [|cbn; auto]. cbn [sbind]. apply A; auto. }
+  all: destruct (gs_flat (o_gs s)); [|cbn; auto]; unfold ref_clip; destruct (gs_check (o_gs s)); [|cbn; auto];
+       destruct (gs_flat (o_gs s)); [|cbn; auto]; cbn [sbind]; apply A; auto.
+Qed.
+
 (* the trace theorem, stated for the GENERATED step *)
 Theorem v_step_trace (neqb_sound : forall a b : T, neqb a b = true -> a = b) (s : ost T) :
   o_has_hook s = true -> o_acc s <> AccGDP -> runs_pos (o_hist s) ->
